@@ -71,6 +71,8 @@ class _AbstractOrderedSet(AbstractSet[T], Sequence[T]):  # noqa: PLW1641
         """
         if isinstance(index, slice):
             raise NotImplementedError("Slicing currently not supported.")
+        if index < 0:
+            index += len(self._items)
         for i, key in enumerate(self._items.keys()):
             if i == index:
                 return key
